@@ -47,6 +47,18 @@ theorem at_zero_cons {α : Type} [Inhabited α] (a : α) (l : List α) : Go.at (
 theorem slice_one_cons {α : Type} (a : α) (l : List α) : slice (a :: l) 1 (len (a :: l)) = l := by
   simp [slice, len]
 
+/-- a `range` loop without state that returns `f x` at the first element satisfying `p` -/
+theorem forRangeFrom_find {α ρ : Type} (p : α → Bool) (f : α → ρ) (xs : List α) (i : Int) :
+    forRangeFrom (fun _ x () => if p x then Ctl.ret (f x) else Ctl.next ()) i xs ()
+      = match xs.find? p with
+        | some x => Done.ret (f x)
+        | none => Done.fin () := by
+  induction xs generalizing i with
+  | nil => simp [forRangeFrom]
+  | cons x xs ih =>
+    simp only [forRangeFrom, List.find?]
+    cases h : p x <;> simp [ih]
+
 /-- a `range` loop that stores `f x` at the loop index into a slice of the same length computes
     `map f` and never indexes out of range -/
 theorem forRangeFrom_set_map {α β ρ : Type} (f : α → β) (xs : List α) (pre : List β) (rest : List β)
